@@ -79,6 +79,11 @@ def build_component(col):
     return Component(np.array([float("nan") if v == "nan" else fl(v) for v in col[1:]], dtype=float))
 
 
+def bits(vals):
+    """mask -> one compact atom"""
+    return "m" + "".join("T" if bool(v) else "F" for v in vals)
+
+
 def labels_to_ids(arr):
     return [NAME_ID[str(x)] for x in arr]
 
@@ -122,7 +127,7 @@ class Sel(Family):
             return ["bad-mask", str(m.dtype), list(m.shape)]
         att = {id(xid): "x", id(yid): "y"}
         return [None if xc is None else labels_to_ids(xc), None if yc is None else labels_to_ids(yc),
-                self.describe_state(state, att, roi_c, unQ(_eps) == 0), [bool(v) for v in m]]
+                self.describe_state(state, att, roi_c, unQ(_eps) == 0), bits(m)]
 
     def describe_state(self, st, att, roi_c, exact):
         if isinstance(st, S.RangeSubsetState):
@@ -151,14 +156,14 @@ class Sel(Family):
         return ["Other", type(st).__name__]
 
     def nontrivial(self, case, po):
-        return isinstance(po, list) and len(po) == 4 and "T" in po[3] and "F" in po[3]
+        return isinstance(po, list) and len(po) == 4 and "T" in po[3] and "F" in po[3][1:]
 
     def signature(self, case, po, res):
         r = case[0]
         return {"roi": roi_kind(r), "xk": case[1][0], "yk": case[2][0]}
 
     def describe(self, case):
-        return case if len(sx(case)) < 1500 else [case[0][0], case[1][0], case[2][0], "…"]
+        return sx(case) if len(sx(case)) < 400 else sx(case)[:400] + "…"
 
     def shrink(self, case):
         roi_c, xcol, ycol, use_pre, pre, eps = case
@@ -263,7 +268,7 @@ class Sel(Family):
                 col = labs + [labs[0]] + ([labs[-1]] if k > 1 else [])      # duplicates
                 edges = H(Fr(-3, 2), k + Fr(1, 2)) + [Fr(1, 4), Fr(7, 8), k - Fr(3, 4)]
                 if ci >= 2 and not thorough:
-                    edges = rng.sample(edges, min(len(edges), 6))
+                    edges = rng.sample(edges, min(len(edges), 5))
                 elif ci >= 8 and thorough:
                     edges = rng.sample(edges, min(len(edges), 8))
                 ovals = [Fr(i % 2) for i in range(len(col))]
@@ -308,7 +313,7 @@ class Sel(Family):
                 for c, s in rots0:
                     for xmin in xe:
                         for xmax in xe:
-                            for ymin, ymax in ye if c == 1 else ye[:2]:
+                            for ymin, ymax in (ye if thorough else ye[:4]) if c == 1 else ye[:2]:
                                 roi = ["rect", Q(xmin), Q(xmax), Q(ymin), Q(ymax), Q(c), Q(s)]
                                 yield self.case(roi, xcol, ycol, False, None, self.eps_for(roi, xk, yk))
                 for c, s in rots:
@@ -356,7 +361,7 @@ class Sel(Family):
                         for pre in pres:
                             yield self.case(shape, xcol, ycol, True, pre, max(self.eps_for(shape, xk, yk), EPS_FLOAT))
         # ---------------- F. seeded random ----------------
-        n = 1500 if not thorough else 40000
+        n = 1200 if not thorough else 40000
         for _ in range(n):
             yield self.random_case(rng)
 
@@ -490,7 +495,7 @@ class Mpl(Family):
 
     def cases(self, tier, rng):
         pts = [[Q(Fr(a, 4)), Q(Fr(b, 4))] for a in range(-6, 19) for b in range(-6, 19)]
-        polys = [[[Fr(a), Fr(b)] for a, b in p] for p in FIXED_POLYS] + list(grid_polys(rng, 150 if tier == "quick" else 3000))
+        polys = [[[Fr(a), Fr(b)] for a, b in p] for p in FIXED_POLYS] + list(grid_polys(rng, 100 if tier == "quick" else 3000))
         for p in polys:
             yield [[[Q(a), Q(b)] for a, b in p], pts]
 
@@ -502,13 +507,13 @@ class Mpl(Family):
         y = np.array([fl(p[1]) for p in pts])
         a = MplPath(np.column_stack((vx, vy))).contains_points(np.column_stack((x, y)))
         b = points_inside_poly(x, y, vx, vy)
-        return [[bool(v) for v in a], [bool(v) for v in b]]
+        return [bits(a), bits(b)]
 
     def nontrivial(self, case, po):
         return isinstance(po, list) and "T" in po[0]
 
     def describe(self, case):
-        return [case[0], "%d points" % len(case[1])]
+        return sx(case[0]) + " x %d points" % len(case[1])
 
 
 class Pli(Family):
@@ -519,7 +524,7 @@ class Pli(Family):
 
     def cases(self, tier, rng):
         ys = [Q(Fr(a, 8) + Fr(1, 32)) for a in range(-12, 40)]
-        polys = [[[Fr(a), Fr(b)] for a, b in p] for p in FIXED_POLYS] + list(grid_polys(rng, 400 if tier == "quick" else 8000, 8))
+        polys = [[[Fr(a), Fr(b)] for a, b in p] for p in FIXED_POLYS] + list(grid_polys(rng, 250 if tier == "quick" else 8000, 8))
         for p in polys:
             for xv in [Fr(a, 2) for a in range(-2, 9)] + [Fr(3, 4)]:
                 yield [[[Q(a), Q(b)] for a, b in p], Q(xv), ys, Q(Fr(1, 2 ** 12))]
@@ -559,7 +564,7 @@ class FromRange(Family):
         cats, lo, hi, probe = case
         roi = R.CategoricalROI.from_range(np.array([NAMES[l] for l in cats]), fl(lo), fl(hi))
         m = roi.contains(np.array([NAMES[l] for l in probe]), None)
-        return [labels_to_ids(roi.categories), [bool(v) for v in m]]
+        return [labels_to_ids(roi.categories), bits(m)]
 
     def nontrivial(self, case, po):
         return isinstance(po, list) and len(po[0]) > 0
